@@ -154,7 +154,8 @@ PROPS["C16"] = {
     "assumptions": ["SIGKILL of the process (page cache survives): the quantifier of the property, not power loss", "kill instants are sampled in real time, not enumerated",
                     "in-flight = attempted after the last acknowledgement of that id"],
     "units": [U("TestVerif_C16_KillCycles", "./pkg/db", R(12, shards=4, shrinktime="20s", timeout=600), R(500, shards=16, shrinktime="60s", timeout=1800), replay_tries=3),
-              U("TestVerif_C16_CrashDuringOpen", "./pkg/db", PLAIN, PLAIN, kind="plain")],
+              U("TestVerif_C16_CrashDuringOpen", "./pkg/db", PLAIN, PLAIN, kind="plain"),
+              U("TestVerif_C16_BackToBackKills", "./pkg/db", PLAIN, PLAIN, kind="plain", replay_tries=3)],
 }
 
 GD = "./cmd/guardiand"
@@ -214,7 +215,8 @@ PROPS["C19"] = {
     "assumptions": ["independent verifier refvaa; the explorer is built against the node module version pinned in its go.mod, as the repository builds it",
                     "the chain RPC is an unreachable unix path, so a VAA naming an unknown set can only be refused", "duplicate suppression itself (ristretto, asynchronous) is not asserted"],
     "units": [U("TestVerif_C19_Gate", "./processor", R(1500), R(40000, shards=16, timeout=1500), module=EX),
-              U("TestVerif_C19_Lookup", "./guardiansets", R(150, shards=2, timeout=900), R(3000, shards=16, timeout=1500), module=EX, race=True, crash_is_violation=True, replay_tries=5)],
+              U("TestVerif_C19_Lookup", "./guardiansets", R(150, shards=2, timeout=900), R(3000, shards=16, timeout=1500), module=EX, race=True, crash_is_violation=True, replay_tries=5),
+              U("TestVerif_C19_FutureLookup", "./guardiansets", R(300, shards=2, timeout=900), R(6000, shards=16, timeout=1500), module=EX, race=True, crash_is_violation=True)],
 }
 PROPS["C07"]["units"].append(U("TestVerif_C07_ExplorerQuorum", "./processor", PLAIN, PLAIN, kind="plain", module=EX))
 
